@@ -21,6 +21,10 @@ package keeper
 // subset, read as "anything may change"), so the ledger equations are proved for every other denom.
 //@ func (Keeper).CommitLiquidTokens
 //@ forall d Str
+//@ inline-within-module
+//@ modifies world if denom == ptypes.Eden || denom == ptypes.EdenB
+//@ modifies module:commitment, bank[addr], bank[modAddr("commitment")]
+//@ ensures C02/custody-takes-the-tokens: err == nil && denom != ptypes.Eden && denom != ptypes.EdenB ==> bal(ctx, modAddr("commitment"), d) == old(bal(ctx, modAddr("commitment"), d)) + ite(d == denom, amount, 0) && bal(ctx, addr, d) == old(bal(ctx, addr, d)) - ite(d == denom, amount, 0) && supply(ctx, d) == old(supply(ctx, d))
 //@ requires amount >= 0
 //@ requires addr != modAddr("commitment")
 //@ ensures C12/total-committed: err == nil && denom != ptypes.Eden && denom != ptypes.EdenB ==> c12TotalGap(ctx, d) == old(c12TotalGap(ctx, d))
@@ -31,6 +35,10 @@ package keeper
 // respected, custody follows. Params.TotalCommitted is the known defect (see known_findings).
 //@ func (Keeper).UncommitTokens
 //@ forall d Str
+//@ inline-within-module
+//@ modifies world if denom == ptypes.Eden || denom == ptypes.EdenB
+//@ modifies module:commitment, bank[addr], bank[modAddr("commitment")]
+//@ ensures C02/custody-releases-the-tokens: err == nil && denom != ptypes.Eden && denom != ptypes.EdenB ==> bal(ctx, modAddr("commitment"), d) == old(bal(ctx, modAddr("commitment"), d)) - ite(d == denom, amount, 0) && bal(ctx, addr, d) == old(bal(ctx, addr, d)) + ite(d == denom, amount, 0) && supply(ctx, d) == old(supply(ctx, d))
 //@ requires amount >= 0
 //@ requires addr != modAddr("commitment")
 //@ ensures C12/account-delta: err == nil && denom != ptypes.Eden && denom != ptypes.EdenB ==> committedOf(k.GetCommitments(ctx, addr), d) == old(committedOf(k.GetCommitments(ctx, addr), d)) - ite(d == denom, amount, 0)
